@@ -56,7 +56,7 @@ def lex_in(src, lang):
         if len(_lexcache) > 200:
             _lexcache.clear()
         lx = cfamily.lex(src, oracles.INDEP_LANGS[lang])
-        v = (cfamily.norm_tokens(lx, split_shift=lang in ("CPP", "OC+", "JAVA")), lx.ok)
+        v = (cfamily.norm_tokens(lx, split_shift=lang in ("CPP", "OC+", "JAVA", "CS", "VALA")), lx.ok)
         _lexcache[k] = v
     return v
 
@@ -83,7 +83,7 @@ def judge(case, r):
         if ok:
             indep_ok = True
             lx = cfamily.lex(r.out, oracles.INDEP_LANGS[lang])
-            b = cfamily.norm_tokens(lx, split_shift=lang in ("CPP", "OC+", "JAVA"))
+            b = cfamily.norm_tokens(lx, split_shift=lang in ("CPP", "OC+", "JAVA", "CS", "VALA"))
             w = token_witness(a, b, "independent-lexer")
             if w:
                 w[0]["lang"] = lang
